@@ -317,7 +317,8 @@ impl BDF {
                 current_h *= factor;
                 h_try = current_h;
                 h_signed = direction * h_try;
-                x_new = x + h_signed;
+                // land exactly on xend: x + (xend - x) / h * h may be one ulp short of it
+                x_new = xend;
                 n_equal_steps = 0;
                 lu_is_current = false;  // Step size changed
             }
